@@ -873,6 +873,12 @@ def gen_base_sites(repo="/repo"):
         out.append(f"Definition dedisperse_gulp (max_delay gulp : Z) : Z := {expr(pre['gulp'], cx2)}.")
         out.append(f"Definition dedisperse_len (hdr_nsamples start nsamps nsamps_none max_delay : Z) : Z := {lets}{expr(pre['tim_len'], cx2)}.")
         out.append("Definition dedisperse_skipback (max_delay : Z) : Z := max_delay.")
+        # the delay handed to the kernel for a law delay d, given the smallest law delay of the band (chan_delays.min()):
+        # `chan_delays = chan_delays - min(0, int(chan_delays.min()))` when the source has that line, the law delay itself otherwise
+        if len(cd_assigns) == 2:
+            out.append("Definition dedisperse_norm (chan_delays_min d : Z) : Z := (d - (Z.min 0 chan_delays_min)).")
+        else:
+            out.append("Definition dedisperse_norm (chan_delays_min d : Z) : Z := d.")
         out.append(f"Definition dedisperse_block (data tim_ar chan_delays : arr) (max_delay nchans nsamps_r ii gulp : Z) : arr :=\n  dedisperse_run {' '.join(args)}.\n")
     except Unsupported as e:
         errors.append(f"dedisperse: {e}"); out.append(f"(* UNSUPPORTED dedisperse: {str(e).replace('*)', '* )')} *)\n")
